@@ -145,3 +145,33 @@ def rule_tb6(repo, res):
         res.oblige("TB6", f"{c}: calendar and day-of-year dates; times to minutes, seconds, fraction", ok=okd)
         if not okd:
             res.add(Finding("TB6", f"grammar.{c}", "_d_formats/_t_formats", f"{c}._d_formats={g._d_formats!r} _t_formats={g._t_formats!r}"))
+
+
+def rule_tb_char(repo, res):
+    """TB-CHAR: the tables the lexer and the token predicates consult one character at a time hold single characters:
+    every entry of whitespace, spacing_characters, format_effectors, reserved_characters, quotes, the set / sequence /
+    units delimiters, statement delimiters and numeric_start_chars of every grammar class has length one (two adjacent
+    string literals without a comma between them merge into one two-character entry that no character ever equals), and
+    the format effectors are the four of the specification."""
+    n = 0
+    for c in tables.grammar_classes(repo):
+        g = tables.grammar_instance(repo, c)
+        for name in ("whitespace", "spacing_characters", "format_effectors", "reserved_characters", "quotes", "set_delimiters",
+                     "sequence_delimiters", "units_delimiters", "delimiters", "numeric_start_chars"):
+            if not hasattr(g, name):
+                raise AnalysisError(f"anchor vanished: {c}.{name}")
+            t = getattr(g, name)
+            bad = [x for x in t if not (isinstance(x, str) and len(x) == 1)]
+            n += 1
+            res.oblige("TB-CHAR", f"{c}.{name}: every entry is one character", ok=not bad)
+            if bad:
+                res.add(Finding("TB-CHAR", f"grammar.{c}", f"{name} holds {bad!r}",
+                                f"{c}.{name} has the entr{'ies' if len(bad) > 1 else 'y'} {bad!r}: the lexer and the token predicates test one "
+                                f"character at a time for membership in this table, so the character(s) {sorted(set(''.join(map(str, bad))))!r} "
+                                "are no longer members of it (as white space they glue two tokens together)", witness=str(bad[0])))
+        fe = set(g.format_effectors)
+        ok = fe == {"\n", "\r", "\v", "\f"}
+        res.oblige("TB-CHAR", f"{c}.format_effectors are LF, CR, VT, FF", ok=ok)
+        if not ok and all(len(x) == 1 for x in g.format_effectors):
+            res.add(Finding("TB-CHAR", f"grammar.{c}", "format_effectors", f"{c}.format_effectors is {sorted(fe)!r}, not LF, CR, VT, FF"))
+    res.floor("single-character tables", n, 40)
